@@ -144,6 +144,28 @@ Definition pobs_bank_same (a b : pobs) : bool :=
 Definition pobs_token_same (a b : pobs) : bool :=
   (o_total a =? o_total b) && zlist_eqb (o_tbal a) (o_tbal b).
 
+(* a transaction with several logs (the token contract need not be the callee): for every pair
+   whose hook route is closed in the observed state, the bank side is as before; and when the
+   calls themselves are feasible on the observed ledgers (the ordinary ERC-20 semantics of
+   [legs_exec]), the transaction is carried out and the pair's token ledger is exactly the
+   result of its ordinary transfers *)
+Fixpoint tx_gate_monitors (parties : list addr) (c i : Z) (pre : obs) (legs : list leg)
+         (plain : option (Z -> pair)) (ok : bool) (q : Z) (os os' : list pobs) : list diff :=
+  match os, os' with
+  | a :: r, b :: r' =>
+      (if hook_gate_closed pre a then
+         report (pobs_bank_same a b) c i 12 ++
+         (if target (EvmTx legs) q then
+            match plain with
+            | Some f => report (ok && token_eqb parties (f q) b) c i 14
+            | None => []
+            end
+          else [])
+       else []) ++
+      tx_gate_monitors parties c i pre legs plain ok (q + 1) r r'
+  | _, _ => []
+  end.
+
 Definition gate_monitors (parties bl : list addr) (c i : Z) (pre : obs) (o : op) (ok : bool) (post : obs) : list diff :=
   match msg_parties o with
   | Some (p, sd, rc) =>
@@ -174,6 +196,9 @@ Definition gate_monitors (parties bl : list addr) (c i : Z) (pre : obs) (o : op)
               else []
           | _, _ => []
           end
+      | EvmTx legs =>
+          tx_gate_monitors parties c i pre legs
+            (legs_exec (pairs (state_of parties bl pre)) legs) ok 0 (ob_pairs pre) (ob_pairs post)
       | _ => []
       end
   end.
